@@ -186,6 +186,7 @@ package commands
 // that is about to be checked out.
 //@ func (*singleCheckout).Run
 //@   props C04
+//@   monitor checkedout[p] := true
 //@   requires @inv p != nil && p.Pointer != nil && c.pathConverter != nil
 //@   at call (*commands.singleCheckout).RunToPath:1 assert !fexists(arg2__) || len(fdata(arg2__)) == 0 || (len(fdata(arg2__)) < 1024 && decodes_ok(str_trim(fdata(arg2__))) && ptr_oid(str_trim(fdata(arg2__))) == p.Oid)
 
@@ -698,3 +699,34 @@ package commands
 //@   assumed
 //@   props C04
 //@   modifies fresh, fields d
+
+// C04, pull: every path of the scan is dealt with - checked out at once when
+// its object is local, or remembered under its object id until the download
+// of that object completes, when every remembered path is checked out.  Paths
+// that share an object are all remembered (the queue downloads the object
+// once).
+//@ func (*pointerMap).Seen
+//@   props C04
+//@   requires @inv m != nil && m.pointers != nil && p != nil && p.Pointer != nil
+//@   ensures result == old(has(m.pointers, p.Oid))
+//@   ensures result ==> has(m.pointers, p.Oid) && len(m.pointers[p.Oid]) == old(len(m.pointers[p.Oid])) + 1 && m.pointers[p.Oid][old(len(m.pointers[p.Oid]))] == p
+//@ func (*pointerMap).Add
+//@   props C04
+//@   requires @inv m != nil && m.pointers != nil && p != nil && p.Pointer != nil
+//@   ensures has(m.pointers, p.Oid) && len(m.pointers[p.Oid]) >= 1 && m.pointers[p.Oid][len(m.pointers[p.Oid]) - 1] == p
+//@ func (*pointerMap).All
+//@   props C04
+//@   requires @inv m != nil && m.pointers != nil
+//@   ensures result == old(m.pointers[oid]) && !has(m.pointers, oid)
+//@ func pull$1
+//@   props C04
+//@   requires @inv p != nil || err != nil
+//@   ensures old(err) == nil && p != nil && !old(checkedout(p)) ==> checkedout(p) || (has(pointers.pointers, p.Oid) && len(pointers.pointers[p.Oid]) >= 1 && pointers.pointers[p.Oid][len(pointers.pointers[p.Oid]) - 1] == p)
+//@ iface (abstractCheckout).Run
+//@   params recv p
+//@   modifies all
+//@   monitor checkedout[p] := true
+//@ func pull$2
+//@   props C04
+//@   loop 2 iter checkedout(p)
+//@   at call (*commands.pointerMap).All:1 assert arg1__ == t.Oid
